@@ -184,7 +184,7 @@ def cli_files(items, rng, n):
 
 def correspondence(ctx):
     rng = ctx.rng
-    items = G.c02_items(rng, ctx.quick)
+    items = G.thin(ctx, G.c02_items(rng, ctx.quick))
     cases = []
     for it in items:
         for sizes in G.pick_chunkings(it, rng, 5 if ctx.quick else 10):
@@ -537,7 +537,7 @@ def search(ctx, seeds, full=False):
         rounds = (2 if full else 1) if ctx.quick else (4 if full else 2)
         per = (6 if full else 3) if ctx.quick else (14 if full else 8)
         for _ in range(rounds):
-            items = G.c02_items(rng, ctx.quick)
+            items = G.thin(ctx, G.c02_items(rng, ctx.quick))
             for it in items:
                 for sizes in G.pick_chunkings(it, rng, per):
                     try_insp(it['fmt'], it['data'], sizes, it['expect'], it['label'], it['cli'], pick_feed(rng))
